@@ -11,7 +11,7 @@ def vf_jobs(tier):
     nl=2 if q else 3
     for hs in (0,1):
         J.append(Job('F-fetch-hs%d'%hs,'vf/f_fetch.c',defs=['-DENV_BUDGET=%d'%(4 if q else 4),'-DNL=%d'%nl,'-DHS=%d'%hs],cuts={'vorbisfile.c':['_get_next_page','_fetch_headers']},unwind=4+3,unwindset=[('env_fill_page',None,28)],object_bits=12,
-            witnesses=['link changed','position set from a granule position','position set at half rate with samples pending','packet processed','streaming handle'],models=ENV,tags=['C03','C07','C09','C08','C20'],
+            witnesses=['link changed','position set from a granule position','packet processed','streaming handle']+(['position set at half rate with samples pending'] if hs else []),models=ENV,tags=['C03','C07','C09','C08','C20'],
             functions=['_fetch_and_process_packet','_make_decode_ready','_decode_clear'],bounds='<=%d links, <=%d framing events per call; arbitrary V_vf state'%(nl,4),weight=3,mem_est=(3 if q else 10)))
     J.append(Job('F-halfrate','vf/f_halfrate.c',defs=['-DNL=3'],cuts={'vorbisfile.c':['ov_pcm_seek']},unwind=5,object_bits=12,
         witnesses=['refused','accepted','re-seek','refusal left the running decoder alone'],models=ENV,tags=['C20','C03'],functions=['ov_halfrate','ov_halfrate_p'],bounds='<=3 links, any subset refusing, any prior state'))
